@@ -57,6 +57,7 @@ func init() {
 				N:     nSys + size(tier, 100000, 1500000),
 				Setup: func(c *harness.Ctx) { hooksOn() },
 				Run: func(c *harness.Ctx, k int) {
+					hooksAlternate(k)
 					var p *spec.Path
 					var doc string
 					if k < nSys {
